@@ -62,7 +62,7 @@ def bounds(tier):
     return {
         "quick": {
             "views": {"max_parent_len": 3, "depth": 2, "steps": [1, 2, -1, -2], "offsets": [0, 3]},
-            "alignments": {"rows": 2, "deep_len": 2, "deep_depth": 2, "shallow_len": 3, "shallow_depth": 1, "moltypes": ["dna"]},
+            "alignments": {"rows": 2, "deep_len": 2, "deep_depth": 2, "shallow_len": 3, "shallow_depth": 1, "moltypes": ["dna"], "ops": "views"},
             "new_collections": {"max_len": 3, "depth": 2},
             "annotated": {"L": 4, "depth": 2, "steps": [1, 2], "offsets": [0, 3], "aln_len": 3},
             "annotation_dbs": {"depth": 1},
@@ -141,13 +141,16 @@ class Obs(list):
 
 
 def first_difference(want: Obs, got: Obs):
-    if [w[0] for w in want] != [g[0] for g in got]:
-        wn, gn = [w[0] for w in want], [g[0] for g in got]
-        name = next((n for n in wn if n not in gn), None) or next((n for n in gn if n not in wn), "observables")
-        return name, dict((g[0], g[1]) for g in got).get(name, "<absent>"), dict((w[0], w[1]) for w in want).get(name, "<absent>")
-    for (name, w, tol), (_, g, _) in zip(want, got):
-        if not same(w, g, tol):
-            return name, g, w
+    """first observable (in the order the original lists them) that the round-tripped object does not reproduce"""
+    g = {name: v for name, v, _ in got}
+    for name, w, tol in want:
+        if name not in g:
+            return name, "<not observable>", w
+        if not same(w, g[name], tol):
+            return name, g[name], w
+    extra = [name for name, _, _ in got if name not in {w[0] for w in want}]
+    if extra:
+        return extra[0], g[extra[0]], "<not observable>"
     return None
 
 
@@ -250,13 +253,17 @@ def view_class(m):
         parts.append("reversed")
     else:
         parts.append("whole parent, forward" if whole and m.stride == 1 else "sliced, forward")
-    if m.stride > 1:
-        parts.append("strided")
     if m.off:
         parts.append("offset")
     if m.pmol != m.mol:
         parts.append("converted DNA<->RNA")
     return ", ".join(parts)
+
+
+def coords_of(x):
+    """parent_coordinates(); a view that carries no seqid refers to its own sequence name"""
+    seqid, start, stop, strand = x.parent_coordinates()
+    return [x.name if seqid is None else seqid, int(start), int(stop), int(strand)]
 
 
 def observe_seq(seq, nucleic):
@@ -269,12 +276,12 @@ def observe_seq(seq, nucleic):
         o.add("moltype", lambda: x.moltype.label)
         n = len(str(x))
         if n:
-            o.add("parent_coordinates", lambda: list(x.parent_coordinates()))
+            o.add("parent_coordinates", lambda: coords_of(x))
             o.add("annotation_offset", lambda: int(x.annotation_offset))
             if nucleic:
-                o.add("rc(): str and parent_coordinates", lambda: [str(x.rc()), list(x.rc().parent_coordinates())])
+                o.add("rc(): str and parent_coordinates", lambda: [str(x.rc()), coords_of(x.rc())])
             if n > 1:
-                o.add("[1:]: str and parent_coordinates", lambda: [str(x[1:]), list(x[1:].parent_coordinates())])
+                o.add("[1:]: str and parent_coordinates", lambda: [str(x[1:]), coords_of(x[1:])])
         return o
 
     return f
@@ -300,18 +307,29 @@ def views_explore(spec, acc):
     for d in range(1, depth + 1):
         nxt = []
         for seq, m, hist in frontier:
-            for op in c1.alphabet(m, steps):
+            for op in view_ops(m, steps):
                 acc.transitions += 1
-                s2, m2, probs = c1.step(seq, m, op)
-                if probs:
-                    acc.count("states_not_entered_owning_property_disagrees")
+                m2 = c1.model_apply(m, op)
+                try:
+                    s2 = c1.real_apply(seq, op)
+                except Exception:  # noqa: BLE001 - what an operation raises is C01's subject
+                    if m2 is not IndexError:
+                        acc.count("states_not_entered_owning_property_disagrees")
                     continue
-                if s2 is None:
+                if m2 is IndexError:
+                    acc.count("states_not_entered_owning_property_disagrees")
                     continue
                 k = (c1.view_record(s2), m2.key())
                 if k in seen:
                     continue
                 seen.add(k)
+                if c1.basic_problems(s2, m2):
+                    # the operation itself broke the view algebra (C01): not a state of this property; a converted sequence may be re-based
+                    s2b, m2b, probs = c1.step(seq, m, op)
+                    if probs or s2b is None:
+                        acc.count("states_not_entered_owning_property_disagrees")
+                        continue
+                    s2, m2 = s2b, m2b
                 acc.state(d)
                 h2 = hist + [list(op)]
                 check_view_state(s2, m2, impl, base_case, h2, acc)
@@ -320,6 +338,15 @@ def views_explore(spec, acc):
                 elif len(seen) % 50 == 0:
                     acc.sample({"part": "views", "impl": impl, "moltype": mol, "parent": parent, "offset": off, "history": h2, "displays": m2.string()}, f"views-{impl}")
         frontier = nxt
+
+
+def view_ops(m, steps):
+    """C01's operation alphabet restricted to in-range slice bounds (a bound outside [-L, L] clamps to a state that an in-range bound also reaches)"""
+    L = len(m.idx)
+    for op in c1.alphabet(m, steps):
+        if op[0] == "slice" and any(v is not None and abs(v) > L for v in op[1:3]):
+            continue
+        yield op
 
 
 def views_shards(b):
@@ -368,7 +395,7 @@ def observe_aln(nucleic):
         o.add("get_gapped_seq", lambda: {n: str(a.get_gapped_seq(n)) for n in a.names})
         o.add("get_seq: str", lambda: {n: str(a.get_seq(n)) for n in a.names})
         if type(a).__name__ == "Alignment":
-            o.add("get_seq: parent_coordinates", lambda: {n: list(a.get_seq(n).parent_coordinates()) for n in a.names if len(str(a.get_seq(n)))})
+            o.add("get_seq: parent_coordinates", lambda: {n: coords_of(a.get_seq(n)) for n in a.names if len(str(a.get_seq(n)))})
         if len(a) > 1:
             o.add("[1:]: rows", lambda: {n: str(s) for n, s in a[1:].to_dict().items()})
         if nucleic and len(a):
@@ -388,7 +415,7 @@ def observe_aligned(x, ch):
     o.add("sequence: str", lambda: str(x.data))
     o.add("map: gap coordinates", lambda: x.map.get_gap_coordinates())
     if len(str(x.data)):
-        o.add("sequence: parent_coordinates", lambda: list(x.data.parent_coordinates()))
+        o.add("sequence: parent_coordinates", lambda: coords_of(x.data))
     return o
 
 
@@ -399,7 +426,7 @@ def observe_coll(c, ch):
     o.add("names", lambda: list(c.names))
     o.add("seqs", lambda: {n: str(s) for n, s in c.to_dict().items()})
     o.add("info", lambda: info_of(c))
-    o.add("get_seq: name and parent_coordinates", lambda: {n: [c.get_seq(n).name, list(c.get_seq(n).parent_coordinates())] for n in c.names if len(str(c.get_seq(n)))})
+    o.add("get_seq: name and parent_coordinates", lambda: {n: [c.get_seq(n).name, coords_of(c.get_seq(n))] for n in c.names if len(str(c.get_seq(n)))})
     return o
 
 
@@ -458,7 +485,7 @@ def alns_explore(spec, acc):
         for d in range(1, depth + 1):
             nxt = []
             for aln, m, hist in frontier:
-                for op in c3.alphabet(m):
+                for op in aln_ops(m, spec.get("ops", "all")):
                     acc.transitions += 1
                     r, m2, probs, outcome = c3.step(aln, m, op)
                     if probs:
@@ -479,6 +506,18 @@ def alns_explore(spec, acc):
     acc.sample({"part": "alignments", "moltype": mol, "rows": rows0, "depth": depth}, "alignments")
 
 
+VIEW_KINDS = {"slice", "int", "rc", "to_dna", "to_rna", "take_positions", "take_seqs", "degapped_relative_to", "concat", "to_type", "copy", "deepcopy"}
+
+
+def aln_ops(m, which):
+    """C03's alphabet; 'views' = the operations that make a structurally new object (slices, rc, selections, conversions, concatenation) -
+    the content filters (omit_gap_pos, no_degenerates, filtered, sample, omit_gap_seqs) select columns / rows through the same constructors"""
+    for op in c3.alphabet(m):
+        if which == "views" and (op[0] not in VIEW_KINDS or (op[0] == "take_positions" and op[2])):
+            continue
+        yield op
+
+
 def alns_shards(b):
     out = []
     for mol in b["moltypes"]:
@@ -488,14 +527,14 @@ def alns_shards(b):
             n = len(list(c3.initial_rows(mol, nrows, L)))
             nchunks = max(1, min(n, (n * (16 if depth > 1 else 2)) // 8))
             for c in range(nchunks):
-                out.append({"part": "alignments", "mol": mol, "nrows": nrows, "L": L, "depth": depth, "chunk": c, "of": nchunks})
+                out.append({"part": "alignments", "mol": mol, "nrows": nrows, "L": L, "depth": depth, "chunk": c, "of": nchunks, "ops": b.get("ops", "all")})
     return out
 
 
 def alns_run(spec, acc):
     for i, rows in enumerate(c3.initial_rows(spec["mol"], spec["nrows"], spec["L"])):
         if i % spec["of"] == spec["chunk"]:
-            alns_explore({"mol": spec["mol"], "rows": rows, "depth": spec["depth"]}, acc)
+            alns_explore({"mol": spec["mol"], "rows": rows, "depth": spec["depth"], "ops": spec.get("ops", "all")}, acc)
 
 
 def alns_replay(case, acc):
